@@ -90,6 +90,7 @@ class ScriptedSocket(socket.socket):
         self.closed_by_peer = False
         self.calls = 0
         self.budget = None
+        self.empty_means = "eof"  # what an empty queue looks like: "eof" (b"") or "timeout" (TimeoutError)
 
     def push(self, ev):
         self.events.append(ev)
@@ -102,6 +103,9 @@ class ScriptedSocket(socket.socket):
             raise Fail("non-termination", f"recv called {self.calls} times")
         while self.events and isinstance(self.events[0], (bytes, bytearray)) and len(self.events[0]) == 0:
             self.events.pop(0)
+        if not self.closed_by_peer and not self.events and self.empty_means == "timeout":
+            self.log.append((n, "timeout"))
+            raise TimeoutError("scripted timeout (nothing queued)")
         if self.closed_by_peer or not self.events:
             self.log.append((n, "eof"))
             return b""
